@@ -5,7 +5,7 @@ from typing import TYPE_CHECKING
 import numba as nb
 import numpy as np
 import xarray as xr
-from scipy.special import erf
+from scipy.special import wofz
 
 from glotaran.builtin.megacomplexes.decay.decay_parallel_megacomplex import DecayDatasetModel
 from glotaran.builtin.megacomplexes.decay.irf import IrfMultiGaussian
@@ -269,29 +269,50 @@ def calculate_damped_oscillation_matrix_gaussian_irf(
     right_shifted_axis = shifted_axis[right_shifted_axis_indices]
     pos_idx = np.where(rates >= 0)[0]
 
-    d = width**2
     k = rates + 1j * frequencies
-    dk = k * d
-    sqwidth = np.sqrt(2) * width
 
-    a = np.zeros((len(model_axis), len(rates)), dtype=np.complex128)
-    a[np.ix_(right_shifted_axis_indices, pos_idx)] = np.exp(
-        (-1 * right_shifted_axis[:, None] + 0.5 * dk[pos_idx]) * k[pos_idx]
+    osc = np.zeros((len(model_axis), len(rates)), dtype=np.complex128)
+    osc[np.ix_(right_shifted_axis_indices, pos_idx)] = gaussian_convolved_oscillation(
+        right_shifted_axis, k[pos_idx], width
     )
-
-    a[np.ix_(left_shifted_axis_indices, neg_idx)] = np.exp(
-        (-1 * left_shifted_axis[:, None] + 0.5 * dk[neg_idx]) * k[neg_idx]
+    osc[np.ix_(left_shifted_axis_indices, neg_idx)] = gaussian_convolved_oscillation(
+        left_shifted_axis, k[neg_idx], width, anti_causal=True
     )
-
-    b = np.zeros((len(model_axis), len(rates)), dtype=np.complex128)
-    b[np.ix_(right_shifted_axis_indices, pos_idx)] = 1 + erf(
-        (right_shifted_axis[:, None] - dk[pos_idx]) / sqwidth
-    )
-    # For negative rates we flip the sign of the `erf` by using `-sqwidth` in lieu of `sqwidth`
-    b[np.ix_(left_shifted_axis_indices, neg_idx)] = 1 + erf(
-        (left_shifted_axis[:, None] - dk[neg_idx]) / -sqwidth
-    )
-
-    osc = a * b * scale
+    osc *= scale
 
     return np.concatenate((osc.real, osc.imag), axis=1)
+
+
+def gaussian_convolved_oscillation(
+    shifted_axis: np.ndarray, k: np.ndarray, width: float, anti_causal: bool = False
+) -> np.ndarray:
+    """Calculate ``exp((-t + k σ²/2) k) (1 ± erf((t - k σ²) / (√2 σ)))`` in a numerically stable way.
+
+    The product is ``exp(...) erfc(z)`` with ``z = ±(k σ² - t) / (√2 σ)``. Evaluated literally the
+    exponential overflows and ``1 ± erf`` cancels for ``σ |k| ≳ 2``. Here ``erfc(z) = exp(-z²) w(iz)``
+    (``w``: Faddeeva function) is used for ``Re(z) >= 0``, which makes the product
+    ``exp(-t²/2σ²) w(iz)``, and ``erfc(z) = 2 - erfc(-z)`` otherwise, where the exponential
+    is bounded by 1.
+
+    Parameters
+    ----------
+    shifted_axis : np.ndarray
+        the time axis relative to the position of the irf, ``t``
+    k : np.ndarray
+        the complex rates ``rate + 1j * frequency``, one per oscillation
+    width : float
+        the width (σ) parameter of the the IRF
+    anti_causal : bool
+        whether to use the lower sign (oscillation before instead of after the pulse)
+
+    Returns
+    -------
+    np.ndarray
+        A complex array of shape (len(shifted_axis), len(k)).
+    """
+    t = shifted_axis[:, None]
+    z = (k * width**2 - t) / (np.sqrt(2) * width) * (-1 if anti_causal else 1)
+    mirrored = z.real < 0
+    result = np.exp(-0.5 * (t / width) ** 2) * wofz(1j * np.where(mirrored, -z, z))
+    result[mirrored] = 2 * np.exp(((-t + 0.5 * k * width**2) * k)[mirrored]) - result[mirrored]
+    return result
